@@ -167,6 +167,10 @@ func c02Cat(parts ...[]byte) []byte {
 	return out
 }
 
+// c02ColdOps: the pairs of the first c02ColdOps scripts are also explored
+// from the package's initial state (tree not built).
+const c02ColdOps = 3
+
 type c02Script struct {
 	kind, name string
 	run        func(e *c02Env)
@@ -291,16 +295,32 @@ func c02Ops(thorough bool) []vsched.Op {
 	return ops
 }
 
+// c02Warm puts the package into the state every call but the first sees:
+// Huffman decoding tree built, one buffer in the pool. It uses the exported
+// API only and runs on the program's main thread before the two threads
+// start, so it adds steps but no schedules.
+func c02Warm() {
+	zzResetGlobals()
+	if s, err := HuffmanDecodeToString([]byte{0x1f}); s != "a" || err != nil {
+		panic(fmt.Sprintf("harness: warm-up decode returned %q %v", s, err))
+	}
+}
+
 func TestVerif_C02_globals(t *testing.T) {
 	vx.Run(t, "C02", func(c *vx.Ctx) {
 		bounds := vx.Pick(c, []int{1}, []int{2})
-		c.Rule("concurrent part: for every unordered pair of decoding scripts from a small alphabet (each script makes its own Decoder(s) and decodes 1-3 header blocks with DecodeFull or Write…Close: valid RFC 7541 C.3/C.4/C.6 blocks raw and Huffman-coded, a block split inside a string, strings above SetMaxStringLength on the wire and after Huffman decoding, an EOS inside a Huffman string, invalid indexes, an overflowing integer, table size updates above / at / below SetAllowedMaxDynamicTableSize, eviction, SetMaxDynamicTableSize between blocks, a block truncated at Close followed by a further block; thorough adds bytewise Writes and more update shapes) two threads run one script each (thorough: twice each) on the instrumented http2/hpack source starting from the package's initial state; every schedule with at most B preemptions (quick B=1, thorough B=2) at the scheduling points — before each statement mentioning a written package-level variable " + fmt.Sprint(zzWrittenGlobals) + ", sync.Once, sync.Pool Get/Put, and between any two Decoder calls of a script — is executed and each script must produce its sequential transcript: emitted fields (name, value, Sensitive), byte counts, error types and texts, the fields dynamic indexes 62-64 resolve to afterwards, and (white-box) table size = sum of entry sizes <= current maximum")
-		c.Assume("concurrent part: statement granularity at mentions of written package-level variables; accesses to heap objects only reachable from them (Huffman tree nodes, pooled buffers) and mutation through method calls are not scheduling points; sync.Pool is one shared LIFO free list; the expected transcript is the uninstrumented package's own sequential behaviour (the sequential parts judge that against RFC 7541)")
+		c.Rule("concurrent part: for every unordered pair of decoding scripts from a small alphabet (each script makes its own Decoder(s) and decodes 1-3 header blocks with DecodeFull or Write…Close: valid RFC 7541 C.3/C.4/C.6 blocks raw and Huffman-coded, a block split inside a string, strings above SetMaxStringLength on the wire and after Huffman decoding, an EOS inside a Huffman string, invalid indexes, an overflowing integer, table size updates above / at / below SetAllowedMaxDynamicTableSize, eviction, SetMaxDynamicTableSize between blocks, a block truncated at Close followed by a further block; thorough adds bytewise Writes and more update shapes) two threads run one script each (thorough: twice each) on the instrumented http2/hpack source, starting (programs warm/pair/…, all pairs) from the state after one Huffman decode (decoding tree built, one buffer in the pool) and (programs pair/…, the pairs of the first " + fmt.Sprint(c02ColdOps) + " scripts) from the package's initial state; every schedule with at most B preemptions (quick B=1, thorough B=2) at the scheduling points — before each statement mentioning a written package-level variable " + fmt.Sprint(zzWrittenGlobals) + ", sync.Once, sync.Pool Get/Put, and between any two Decoder calls of a script — is executed and each script must produce its sequential transcript: emitted fields (name, value, Sensitive), byte counts, error types and texts, the fields dynamic indexes 62-64 resolve to afterwards, and (white-box) table size = sum of entry sizes <= current maximum")
+		c.Assume("concurrent part: statement granularity at mentions of written package-level variables; accesses to heap objects only reachable from them (Huffman tree nodes, pooled buffers) and mutation through method calls are not scheduling points; sync.Pool is one shared LIFO free list; the expected transcript is the uninstrumented package's own sequential behaviour (the sequential parts judge that against RFC 7541); the first-use race of the Huffman tree is explored from the initial state for a subset of the pairs only (it is C04's subject)")
 		seq := 0
 		if !c.Quick() {
 			seq = 1
 		}
-		progs := vsched.PairPrograms("C02", zzResetGlobals, c02Ops(!c.Quick()), seq)
+		ops := c02Ops(!c.Quick())
+		progs := vsched.PairPrograms("C02", zzResetGlobals, ops[:c02ColdOps], seq)
+		for _, p := range vsched.PairPrograms("C02", c02Warm, ops, seq) {
+			p.Name = "warm/" + p.Name
+			progs = append(progs, p)
+		}
 		c.Note("globals_programs", len(progs))
 		c.Note("written_package_level_variables", zzWrittenGlobals)
 		vsched.RunBounds(c, "globals", progs, bounds)
